@@ -44,6 +44,7 @@ Inductive case :=
 | CCompl (cells : list (Z * option Z)) (impl : list (Z * Z * Z * Q))
 | CCvd (preds : list (list Z)) (impl : list (list Z * Z * Z * Q))
 | CHist (mn mx : Q) (nb : Z) (scores : list Q) (impl_bw : Q) (impl : list (Q * Z * Q))
+| CHistW (mn mx : Q) (nb : Z) (impl_bw : Q) (total : Z) (counts : list Z)
 | CUnl (scores : list (Q * Q)) (impl : list (Q * Q * Q * Q))
 | CProfile (col : list (option Z)) (impl_vf : list (Z * Z)) (totals : Z * Z * Z)
            (impl_pc : list (Z * Z * Q * Q)) (ntop nbot : nat) (impl_top impl_bot : list (Z * Z)).
@@ -72,6 +73,8 @@ Definition run_case (c : case) : bool :=
               match i with (low, cnt, high) =>
                 close t9 low (splink_score_bin_low m) && Z.eqb (count_rows m) cnt
                 && close t6 high (splink_score_bin_high m) end) (histogram impl_bw scores) impl
+  | CHistW mn mx nb impl_bw total counts =>      (* a score sits on a bin edge: width and sum-to-total only *)
+      Qeq_bool (choose_bin_width mn mx nb) impl_bw && Z.eqb (sumZ counts) total && forallb (Z.ltb 0) counts
   | CUnl scores impl =>
       all2 (fun (m : ucrow) (i : Q * Q * Q * Q) =>
               match i with (w, p, pr, cum) =>
@@ -520,7 +523,15 @@ def build(case, res):
         else:
             bw = next(iter(bw_impl))
             if any(abs(s / bw - round(s / bw)) < Fraction(1, 10**9) for s in scores):
-                skipped.append("hist_score_on_bin_edge")
+                # a score within 1e-9 of a bin edge: the engine's float floor may put it in either neighbour, so
+                # only the per-bin comparison is skipped; the width and "counts add up to N" are still checked
+                skipped.append("hist_score_on_bin_edge (per-bin comparison only)")
+                cnts = [int(x["count_rows"]) for x in res["hist"]]
+                terms.append(f"(CHistW {coq_Q(mn)} {coq_Q(mx)} {coq_Z(case['num_bins'])} {coq_Q(bw)} {coq_Z(len(scores))} "
+                             f"{coq_list([coq_Z(c) for c in cnts], 'Z')})")
+                labels.append(("hist_width_total", None))
+                if sum(cnts) != len(scores) or any(c <= 0 for c in cnts):
+                    bad.append(("hist", f"bin counts {cnts} do not partition the {len(scores)} scored pairs"))
             else:
                 impl = sorted((Fraction(x["splink_score_bin_low"]), int(x["count_rows"]), Fraction(x["splink_score_bin_high"]))
                               for x in res["hist"])
